@@ -791,3 +791,69 @@ pub fn string_pool() -> Vec<&'static str> {
 pub fn root_pool() -> Vec<Option<&'static str>> {
     vec![None, Some(""), Some("r"), Some("r/"), Some("r//"), Some("/abs"), Some("http://x/")]
 }
+
+// ---------------------------------------------------------------------------------
+// low-level mapping text: lines -> segment slots -> field deltas
+
+/// A segment slot: `None` = empty segment (two adjacent commas), `Some(fields)` = the
+/// VLQ-encoded deltas.
+pub type RawLine = Vec<Option<Vec<i128>>>;
+
+pub fn write_raw_mappings(lines: &[RawLine]) -> String {
+    lines
+        .iter()
+        .map(|l| l.iter().map(|s| s.as_ref().map(|f| vlq_write(f)).unwrap_or_default()).collect::<Vec<_>>().join(","))
+        .collect::<Vec<_>>()
+        .join(";")
+}
+
+/// Absolute segment: generated column, optional (source, original line, original
+/// column, optional name). Converted to delta form by `to_raw_lines`.
+pub type AbsSeg = Option<(i128, Option<(i128, i128, i128, Option<i128>)>)>;
+
+pub fn to_raw_lines(lines: &[Vec<AbsSeg>]) -> Vec<RawLine> {
+    let (mut ps, mut pl, mut pc, mut pn) = (0i128, 0i128, 0i128, 0i128);
+    let mut out = vec![];
+    for line in lines {
+        let mut pg = 0i128;
+        let mut rl: RawLine = vec![];
+        for seg in line {
+            match seg {
+                None => rl.push(None),
+                Some((gc, src)) => {
+                    let mut f = vec![gc - pg];
+                    pg = *gc;
+                    if let Some((s, l, c, n)) = src {
+                        f.extend([s - ps, l - pl, c - pc]);
+                        ps = *s;
+                        pl = *l;
+                        pc = *c;
+                        if let Some(n) = n {
+                            f.push(n - pn);
+                            pn = *n;
+                        }
+                    }
+                    rl.push(Some(f));
+                }
+            }
+        }
+        out.push(rl);
+    }
+    out
+}
+
+/// The tokens an independent reading of absolute segments yields (document order).
+pub fn abs_tokens(lines: &[Vec<AbsSeg>]) -> Vec<RTok> {
+    let mut out = vec![];
+    for (gl, line) in lines.iter().enumerate() {
+        for seg in line.iter().flatten() {
+            out.push(RTok {
+                gl: gl as u32,
+                gc: seg.0 as u32,
+                src: seg.1.map(|(s, l, c, n)| (s as u32, l as u32, c as u32, n.map(|n| n as u32))),
+                range: false,
+            });
+        }
+    }
+    out
+}
